@@ -13,3 +13,6 @@ def run(chk):
     sv.judge(chk, "C36", cases, None, lambda c: "%s/gap=%d" % (c["label"], c["gap_ms"]),
              lambda tr: tr[0]["gap_ms"] > tr[0]["idle_timeout_ms"])
     sv.design(chk, "IdleRelease", ["design_short", "design_long"], {})
+    # the DBOS stack: lifecycle lock (Lifecycle.tla) and DBOSIdleReleaseDecorator (DbosIdleRelease.tla)
+    from harness.checks import _dbos_idle
+    _dbos_idle.run_c36_part(chk)
